@@ -1,6 +1,6 @@
 """C20: SNI validation forwards a request only if its host is the TLS server name (level: other; tls+sni configuration)."""
 import re
-from core import norm, L_call, L_variant, arms, assigns_to_return, closure_arg_of, sig, const_of
+from core import norm, L_call, L_variant, arms, assigns_to_return, closure_arg_of, sig, const_of, L_opt
 from mir import op_place
 import panics
 import c17
@@ -153,60 +153,51 @@ def _selection_fn(facts):
     return h, h
 
 
+def _host_get(f, c):
+    return c.matches(r"http::(header::map::)?HeaderMap.*::get$") and any(
+        str(const_of(a) or "").endswith("header::HOST") or any(r.kind == "const" and str(r.desc).endswith("header::HOST") for r in f.roots(a, through_calls=False)) for a in c.args[1:])
+
+
 def C20_2(ctx, facts):
-    h, f = _selection_fn(facts)
+    """Which name of the request is compared: decided on the expanded unit of handle() (a selection helper, combinator chains,
+    explicit matches and let-else all reduce to the same tests): on HTTP/2 the URI authority, with the Host header as fallback
+    *only* when there is no authority; on every other version the Host header."""
+    f = facts.unit(facts.fn("server::conn::tls::sni::handle"), expand=True)
     ctx.touched(f)
-    if f.key != h.key:
-        # the selection lives in a helper: handle must use its result as the host it compares
-        cs = [c for c in closure_tree_calls(facts, h) if c[1].res == f.key]
-        ctx.check(bool(cs), "sni::handle|selection-helper-used", "handle() obtains the request host from %s" % f.nkey.split("::")[-1], "the host-selection helper is not called from handle()", h.where())
     t_edge, f_edge = h2_edges(f)
     ctx.floor("sni::handle|version-test", min(len(t_edge), len(f_edge)), 1, "test of the request version against HTTP/2 (both outcomes)")
     if not t_edge or not f_edge:
         return
     h2_region = f.reach([t_edge[0][1]]) - f.reach([f_edge[0][1]])
     h1_region = f.reach([f_edge[0][1]]) - f.reach([t_edge[0][1]])
-    # h2: authority first, then the Host header as fallback
-    tree = closure_tree_calls(facts, f)
-    auth = [c for (g, c) in tree if c.is_("http::Uri::authority", "http::uri::Uri::authority")]
-    ctx.check(len(auth) >= 1, "sni::handle|h2-authority", "for HTTP/2 the host is taken from the URI authority", "the URI authority is never consulted")
-    fallbacks = [x for x in f.calls() if x.matches(r"Option.*::(or_else|or)$") and (x.bb in h2_region or f.key != h.key)]
-    ok_fb = False
-    for x in fallbacks:
-        recv = f.roots(x.args[0])
-        if not any(r.kind == "call" and r.site.is_("http::Uri::authority", "http::uri::Uri::authority") for r in recv):
-            continue
-        ck = closure_arg_of(f, x, 1)
-        if ck and ck in facts.fns and reads_host_header(facts, facts.fns[ck]):
-            ok_fb = True
-        if not ck:
-            rr = f.roots(x.args[1])
-            if any(r.kind == "call" and r.site.res in facts.fns and reads_host_header(facts, facts.fns[r.site.res]) for r in rr):
-                ok_fb = True
-    ctx.check(ok_fb, "sni::handle|h2-fallback-host-header", "for HTTP/2 without authority the Host header is used (authority().or_else(host header))",
+    auth = [c for c in f.calls() if c.is_("http::Uri::authority", "http::uri::Uri::authority") and c.bb in h2_region]
+    ctx.check(len(auth) >= 1, "sni::handle|h2-authority", "for HTTP/2 the host is taken from the URI authority", "the URI authority is never consulted on the HTTP/2 path")
+    ab = {c.bb for c in auth}
+    is_auth = lambda rr: any(r.kind == "call" and r.site.bb in ab for r in rr)
+    a_none = f.edges_where(L_opt(f, False, is_auth))
+    a_some = f.edges_where(L_opt(f, True, is_auth))
+    hg2 = [c for c in f.calls() if _host_get(f, c) and c.bb in h2_region]
+    ok_fb = any(any(c.bb in f.reach([y]) for c in hg2) for (x, y) in a_none)
+    ctx.check(ok_fb, "sni::handle|h2-fallback-host-header", "for HTTP/2 without authority the Host header is used (reached on the None edge of uri.authority())",
               "an HTTP/2 request without authority is not validated against its Host header", f.where(t_edge[0][0]))
-    # precedence: the authority comes first; the Host header must not take precedence over it
-    inverted = False
-    for x in fallbacks:
-        recv = f.roots(x.args[0])
-        recv_is_header = any(r.kind == "call" and (r.site.matches(r"HeaderMap.*::get$") or (r.site.res in facts.fns and reads_host_header(facts, facts.fns[r.site.res]))) for r in recv) and \
-            not any(r.kind == "call" and r.site.is_("http::Uri::authority", "http::uri::Uri::authority") for r in recv)
-        if recv_is_header:
-            inverted = True
-    ctx.check(not inverted, "sni::handle|h2-authority-takes-precedence", "for HTTP/2 the URI authority takes precedence over a Host header",
-              "for HTTP/2 the Host header takes precedence over the URI authority: a request whose :authority differs from its Host header is validated against the wrong name", f.where(t_edge[0][0]))
+    # precedence: on the HTTP/2 path the Host header is read only once the authority turned out to be absent
+    inverted = None
+    for c in hg2:
+        g, w = f.guarded(c.bb, L_opt(f, False, is_auth), frm=t_edge[0][1])
+        if not g:
+            inverted = c
+    ctx.check(inverted is None, "sni::handle|h2-authority-takes-precedence", "for HTTP/2 the URI authority takes precedence over a Host header (the header is read only on the None edge of authority())",
+              "for HTTP/2 the Host header takes precedence over the URI authority: a request whose :authority differs from its Host header is validated against the wrong name",
+              inverted.where() if inverted else f.where(t_edge[0][0]))
     # other versions: the Host header
-    ok_h1 = reads_host_header(facts, f)
-    ctx.check(ok_h1, "sni::handle|h1-host-header", "for other versions the host is the Host header", "the Host header is never consulted", f.where(f_edge[0][0]))
+    hg1 = [c for c in f.calls() if _host_get(f, c) and c.bb in h1_region]
+    ctx.check(bool(hg1), "sni::handle|h1-host-header", "for other versions the host is the Host header", "the Host header is never consulted on the non-HTTP/2 path", f.where(f_edge[0][0]))
     # the compared request host is what was selected
-    cmps = [x for x in h.calls() if x.matches(r"str.*::eq_ignore_ascii_case$")]
+    cmps = [x for x in f.calls() if x.matches(r"str.*::eq_ignore_ascii_case$")]
     for x in cmps:
-        rr = h.roots(x.args[0]) | h.roots(x.args[1])
-        if f.key != h.key:
-            sel = any(r.kind == "call" and r.site.res == f.key for r in rr)
-        else:
-            sel = any(r.kind == "call" and r.site.bb in h2_region for r in rr) and any(r.kind == "call" and r.site.bb in h1_region for r in rr)
-        ctx.check(sel, "sni::handle|compares-selected-host", "the host that is compared is the one selected above (either arm)", "the compared host does not come from the selection", x.where())
+        rr = f.roots(x.args[0]) | f.roots(x.args[1])
+        sel = any(r.kind == "call" and r.site.bb in ab for r in rr) and any(r.kind == "call" and r.site.bb in {c.bb for c in hg1} for r in rr)
+        ctx.check(sel, "sni::handle|compares-selected-host", "the host that is compared is the one selected above (authority on HTTP/2, Host header otherwise)", "the compared host does not come from the selection", x.where())
 
 
 def C20_4(ctx, facts):
